@@ -152,8 +152,9 @@ def check_term(case):
     bad = lambda key, msg: out.append(('term:' + key, '%s: %s' % (case, msg)))  # noqa: E731
     ref = cx.product(term)
     odd = cx.parity(term)
-    # (a) ordering / combining
-    cterm, sign = order_combine_term(list(term), sites)
+    # (a) ordering / combining; with 'unit_cell' the functions only get the sites of one unit cell (indices i % len)
+    uc = sites[:case['unit_cell']] if case.get('unit_cell') else sites
+    cterm, sign = order_combine_term(list(term), uc)
     if [i for _, i in cterm] != sorted({i for _, i in term}):
         bad('order_combine:sites', 'combined term %s' % (cterm,))
         return out
@@ -161,12 +162,12 @@ def check_term(case):
     if not close(cref, sign * ref):
         bad('order_combine:sign', 'sign %s, combined %s: product differs from sign * product(term)' % (sign, cterm))
     # (b) explicit JW strings for (Multi)CouplingTerms
-    handlers = [('multi', MultiCouplingTerms(L).multi_coupling_term_handle_JW)] if len(cterm) >= 2 else []
+    handlers = [('multi', MultiCouplingTerms(len(uc)).multi_coupling_term_handle_JW)] if len(cterm) >= 2 else []
     if len(cterm) == 2:
-        handlers.append(('coupling', CouplingTerms(L).coupling_term_handle_JW))
+        handlers.append(('coupling', CouplingTerms(len(uc)).coupling_term_handle_JW))
     for name, handler in handlers:
         try:
-            res = handler(1.0, list(cterm), sites)
+            res = handler(1.0, list(cterm), uc)
         except ValueError as e:
             if not odd:
                 bad('handle_JW:%s:exception' % name, 'raises %s' % e)
@@ -177,8 +178,12 @@ def check_term(case):
         if name == 'coupling':
             s, i, j, op_i, op_j, op_str = res
             ijkl, ops, strs = [i, j], [op_i, op_j], [op_str]
-        else:
+        else:  # (documented to shift the indices such that the first one is inside the unit cell)
             s, ijkl, ops, strs = res
+            if not 0 <= ijkl[0] < len(uc) or (ijkl[0] - cterm[0][1]) % len(uc):
+                bad('handle_JW:multi:shift', 'returned sites %s for %s' % (ijkl, cterm))
+                continue
+            ijkl = [i - ijkl[0] + cterm[0][1] for i in ijkl]
         mats = [None] * L
         for k, (i, op) in enumerate(zip(ijkl, ops)):
             mats[i] = dense(sites[i], op)
